@@ -29,5 +29,5 @@ fi
 if ! (cd "$W" && go build ./... 2>"$D/build.err"); then echo "PATCH-DOES-NOT-BUILD $(head -5 "$D/build.err")"; exit 3; fi
 rc=0
 PROPS=$(echo "$@" | tr ' ' ',')
-"$HERE/bin/gmqttlint" -repo "$W" -verif "$V" -property "$PROPS" -tier quick | grep -E "^(VIOLATION|KNOWN-FINDING|CHECKER-ERROR|SUMMARY|  )" | sed "s#$W/##g; s#$V#<tmp>#g"
+VERIF_DEBUG=${VERIF_DEBUG:-} "$HERE/bin/gmqttlint" -repo "$W" -verif "$V" -property "$PROPS" -tier quick | grep -E "^(VIOLATION|KNOWN-FINDING|CHECKER-ERROR|SUMMARY|DEBUG|  )" | sed "s#$W/##g; s#$V#<tmp>#g"
 exit 0
